@@ -107,6 +107,8 @@ def witnesses():
         "equal-elements-collapsed-on-slice-assignment": {"kind": "list", "n_other": 4, "start": [1], "start_form": "ctor", "twins": True,
                                                          "ops": [["setslice", [0, 2], 0]]},
         "slice-assignment-of-one-shot-iterable": {"kind": "list", "n_other": 3, "start": [0], "start_form": "ctor", "ops": [["setslice", [1, 2], 1, "gen"]]},
+        "inferred-values-before-and-among-the-written-ones": {"kind": "tlist", "n_other": 3, "chains": [[0, 1]], "start": [], "start_form": "ctor",
+                                                              "ops": [["assign_new", [0, 1], 0, "list"], ["assign_new", [0, 2], 0, "list"]]},
         "negative-position-resolved-after-inference": {"kind": "tlist", "n_other": 3, "chains": [[1, 2]], "start": [0, 0], "start_form": "ctor",
                                                        "ops": [["setitem", [1], -1, "list"], ["insert", [1], -1, "list"]]},
         "first-assignment-adopts-foreign-container": {"kind": "list", "n_other": 3, "start": [0], "start_form": "ctor", "second_owner": {"at": 0, "form": "ctor"},
@@ -137,9 +139,6 @@ def run_tlist(spec, ctx):
         owner = om.Org("w")
         if spec["start_form"] == "assign":
             owner.part_of = list(start)
-        else:
-            for x in start:
-                owner.part_of.append(x)
     named = {o.name: o for o in others}
     named["w"] = owner
     name_of = {id(o): n for n, o in named.items()}
@@ -172,20 +171,21 @@ def run_tlist(spec, ctx):
     def check(label, model):
         C["content_checks"] += 1
         got = list(owner.part_of)
-        # the written list must appear in order inside the field; what is left over must be inferred elements
-        k, leftover = 0, []
-        for x in got:
-            if k < len(model) and x is model[k]:
-                k += 1
-            else:
-                leftover.append(x)
+        # the field starts with exactly what Python semantics give for the written operation; what follows are the
+        # elements inferred meanwhile, each of them once and only if it is not among the written ones
         allowed = expected_inferred()
-        if k < len(model):
-            problems.append(f"after {label}: field holds {nm(got)}, Python semantics give {nm(model)} (+ inferred elements)")
+        if len(got) < len(model) or any(x is not y for x, y in zip(got, model)):
+            problems.append(f"after {label}: field holds {nm(got)}, Python semantics give {nm(model)} (followed by inferred elements)")
             return False
+        leftover = got[len(model):]
         bad = [x for x in leftover if id(x) not in allowed]
         if bad:
             problems.append(f"after {label}: field holds {nm(got)}: {nm(bad)} were neither written ({nm(model)}) nor can be inferred")
+            return False
+        repeated = [x for i, x in enumerate(leftover) if any(x is y for y in model) or any(x is y for y in leftover[:i])]
+        if repeated:
+            problems.append(f"after {label}: field holds {nm(got)}: the inferred {nm(repeated)} repeat(s) an element the field holds already "
+                            f"(written: {nm(model)})")
             return False
         # every element that became part of the field is recorded with the inferences an append would have drawn: what
         # those inferences add to this very field (the transitive ancestors) is there, whatever the write form was
@@ -198,7 +198,17 @@ def run_tlist(spec, ctx):
             return False
         return True
 
-    check("start(" + spec["start_form"] + ")", list(start))
+    if spec["start_form"] == "append":
+        # one write operation per element: each is compared on its own
+        ever.clear()
+        for i in spec["start"]:
+            before = list(owner.part_of)
+            owner.part_of.append(others[i])
+            ever.add(i)
+            if not check("start(append)", before + [others[i]]):
+                break
+    else:
+        check("start(" + spec["start_form"] + ")", list(start))
     for op, idxs, pos, form in spec["ops"]:
         if problems:
             break
